@@ -130,7 +130,17 @@ var c15 = gen.Register(&gen.Check[caseC15]{
 		o.Class("call:" + c.Call)
 		qEnc, tLimbs := q.E.Encode(), t.S
 		qUnc, qID := q.E.EncodeUncompressed(), q.E.IsIdentity()
+		// the memory of the argument objects themselves (taken after the last observer above, compared before the next one): "no API
+		// call modifies memory owned by the caller other than its receiver" - a value-preserving rewrite of an argument (an in-place
+		// normalisation, a cache filled into it) is a write to caller memory all the same, and a data race for concurrent readers
+		qMem, tMem := rawMemory(q.E), rawMemory(t)
 		argsIntact := func() error {
+			if !bytes.Equal(rawMemory(q.E), qMem) {
+				return gen.Fail(c.Call+"/writes-element-argument-memory", "the memory of the element argument changed (its value may be the same): %x -> %x", qMem, rawMemory(q.E))
+			}
+			if !bytes.Equal(rawMemory(t), tMem) {
+				return gen.Fail(c.Call+"/writes-scalar-argument-memory", "the memory of the scalar argument changed: %x -> %x", tMem, rawMemory(t))
+			}
 			if !bytes.Equal(q.E.Encode(), qEnc) || !bytes.Equal(q.E.EncodeUncompressed(), qUnc) || q.E.IsIdentity() != qID {
 				return gen.Fail(c.Call+"/mutates-element-argument", "element argument changed from %x to %x", qEnc, q.E.Encode())
 			}
@@ -336,6 +346,11 @@ var c15 = gen.Register(&gen.Check[caseC15]{
 		}
 	},
 })
+
+// rawMemory is a copy of the bytes of the object p points to (all fields, exported or not).
+func rawMemory[T any](p *T) []byte {
+	return append([]byte(nil), unsafe.Slice((*byte)(unsafe.Pointer(p)), unsafe.Sizeof(*p))...)
+}
 
 func contains(l []string, s string) bool {
 	for _, x := range l {
